@@ -734,6 +734,21 @@ def appended_temporary_list_touched_must_stay(futs):
         last = r
     return got
 
+def default_into_new_local(x, d=None):
+    dd = {"k": 1} if d is None else d
+    dd["x"] = x
+    return dd
+
+def default_into_new_local_not_none(x, d=None):
+    dd = d if d is not None else []
+    dd.append(x)
+    return (dd, len(dd))
+
+def default_param_read_later_must_stay(x, d=None):
+    dd = [] if d is None else d
+    dd.append(x)
+    return (dd, d)
+
 def takes_three(a, b, c=3):
     return (a, b, c)
 
@@ -1024,6 +1039,7 @@ ARGS = {
     "row_store_array_literal": [([(1, 2), (7, 4)],)], "row_store_array_other_dtype_must_stay": [([(1, 2), (7, 4)],)],
     "extend_generator": [([[(1, 2), (3, None)], [(4, 5)]],)], "extend_generator_target_read_later_must_stay": [([1, 2],)],
     "appended_temporary": [([lambda: [1], lambda: [1, 2]],)], "appended_temporary_list_touched_must_stay": [([lambda: 1],)],
+    "default_into_new_local": [(1,), (1, {"z": 0})], "default_into_new_local_not_none": [(1,), (1, [5])], "default_param_read_later_must_stay": [(1,), (1, [5])],
     "keys_loop": [({"b": [1, 2], "a": [3]},), ({},)], "keys_loop_keys_call": [({"b": [1, 2], "a": [3]},), ({},)],
     "keys_loop_body_stores_must_stay": [({"b": [1, 2], "a": [3]},)], "keys_loop_other_key_must_stay": [({"b": [1], "a": [3]}, "a")],
     "keys_loop_rebinds_key_must_stay": [({"b": [1], "a": [3]},)],
